@@ -27,6 +27,8 @@ pub struct Cfg {
     delay: Delay,
     /// per request: arrival, per-attempt (latency, ok?)
     reqs: Vec<(u64, Vec<(Lat, bool)>)>,
+    /// (request index, from, until): the caller is not polled in this window (late polls)
+    stall: Option<(usize, u64, u64)>,
 }
 
 fn delay_for(cfg: &Cfg, attempt: usize) -> u64 {
@@ -74,7 +76,15 @@ pub fn gen(rng: &mut Prng) -> Cfg {
             .collect();
         reqs.push((rng.below(3) * 3000, script));
     }
-    Cfg { max, delay, reqs }
+    let stall = if rng.chance(0.3) {
+        // whole milliseconds: director events ride on tokio timers
+        let ms = |x: u64| (x / 1000).max(1) * 1000;
+        let from = ms(rng.below(4) * d / 2);
+        Some((rng.below(n) as usize, from, from + ms(*rng.pick(&[d / 2, d, 2 * d + 1000, 3 * d]))))
+    } else {
+        None
+    };
+    Cfg { max, delay, reqs, stall }
 }
 
 fn map_err(e: &HedgeError<PErr>) -> Outcome {
@@ -104,6 +114,13 @@ pub fn run(cfg: &Cfg, seed: u64) -> (Arc<World>, crate::sim::SimStats) {
             let req = Req::new(i as u64 + 1, 0, steps);
             let a = sim.actor(req.id, caller(w.clone(), svc.clone(), req, false, map_err));
             sim.start_at(*arrive, a);
+            if let Some((ri, from, until)) = cfg.stall {
+                if ri == i {
+                    sim.at(*arrive + from, What::Suspend(a));
+                    sim.at(*arrive + until, What::Resume(a));
+                    end = end.max(*arrive + until);
+                }
+            }
             let mut t = *arrive;
             for (k, (l, _)) in script.iter().enumerate() {
                 t += delay_for(cfg, k);
@@ -237,9 +254,15 @@ pub fn judge(cfg: &Cfg, log: &[Rec]) -> Report {
         if v.iter().any(|a| matches!(&a.end, Some((_, How::Err(_))))) {
             any_fail = true;
         }
+        // a caller that is not being polled cannot notice the success before it is polled again
+        let stall_abs = cfg.stall.filter(|st| st.0 == i).map(|st| (cfg.reqs[i].0 + st.1, cfg.reqs[i].0 + st.2));
+        let noticed = |t: u64| match stall_abs {
+            Some((s, e)) if t >= s && t < e => e,
+            _ => t,
+        };
         match &out {
             Outcome::Ok { serial, req_id, .. } => {
-                let ok = first_succ == Some(rt) && succ.iter().any(|s| s.0 == rt && s.1 == *serial) && *req_id == id;
+                let ok = first_succ.map(noticed) == Some(rt) && succ.iter().any(|s| Some(s.0) == first_succ && s.1 == *serial) && *req_id == id;
                 if !ok {
                     rep.violate(
                         format!("C12:{mode}:not-first-success"),
